@@ -98,14 +98,23 @@ func buildFL(f flv, route int) gopacket.Flow {
 	return gopacket.NewFlow(t, dirty(f.S), dirty(f.D))
 }
 
+// conv is the flow a decoded layer reported next to the value its address fields demand
+type conv struct {
+	f    gopacket.Flow
+	want flv
+}
+
 type driver struct {
-	tr     *vh.Trace
-	sc     int
-	seenEP map[string]bool
-	seenFL map[string]bool
-	seenLy map[string]bool
-	stats  map[string]int
-	ltypes map[string]int
+	collect bool
+	conv    map[string][]conv
+	nconv   map[string]int
+	tr      *vh.Trace
+	sc      int
+	seenEP  map[string]bool
+	seenFL  map[string]bool
+	seenLy  map[string]bool
+	stats   map[string]int
+	ltypes  map[string]int
 }
 
 var progress atomic.Int64
@@ -219,6 +228,27 @@ func (d *driver) obsFPair(f, g flv, rf, rg int) {
 		d.emit(vh.M{"op": "fpair", "f": f.rec(), "g": g.rec(), "eq": ff == gg, "mapn": len(m),
 			"heq": ff.FastHash() == gg.FastHash()})
 	})
+}
+
+// conversations: the flows reported for layers with different addresses are different values, different
+// map keys; those of one conversation (either direction) hash alike.  The values judged are the layers' fields.
+func (d *driver) conversations() {
+	for _, kind := range []string{"link", "network", "transport"} {
+		cs := d.conv[kind]
+		for i := range cs {
+			for j := i; j < len(cs); j++ {
+				d.sc++
+				a, b := cs[i], cs[j]
+				d.guard("conv", func() {
+					m := map[gopacket.Flow]int{}
+					m[a.f] = 1
+					m[b.f] = 2
+					d.emit(vh.M{"op": "fpair", "f": a.want.rec(), "g": b.want.rec(), "eq": a.f == b.f, "mapn": len(m),
+						"heq": a.f.FastHash() == b.f.FastHash(), "kind": kind})
+				})
+			}
+		}
+	}
 }
 
 // ---------------------------------------------------------------------------------------------
@@ -439,6 +469,112 @@ func offsetIn(data, sub []byte) int {
 	return off
 }
 
+// locate finds where the layer's two address fields (of equal width) sit in the packet data
+func locate(data []byte, l gopacket.Layer, lt string, src, dst, srcRaw, dstRaw []byte) (so, do int, ok bool) {
+	so, do = offsetIn(data, srcRaw), offsetIn(data, dstRaw)
+	if srcRaw == nil {
+		at, okp := portAt[lt]
+		base := offsetIn(data, l.LayerContents())
+		if !okp || base < 0 || at[2] != len(src) {
+			return 0, 0, false
+		}
+		so, do = base+at[0], base+at[1]
+	} else if len(srcRaw) != len(src) { // 16-byte form of an IPv4 address: the last four bytes
+		so, do = so+len(srcRaw)-len(src), do+len(dstRaw)-len(dst)
+	}
+	n := len(src)
+	if so < 0 || do < 0 || so+n > len(data) || do+n > len(data) ||
+		!bytes.Equal(data[so:so+n], src) || !bytes.Equal(data[do:do+n], dst) {
+		return 0, 0, false
+	}
+	return so, do, true
+}
+
+// addresses with a special meaning or shape, by field width.  A flow must carry them byte for byte under the
+// layer's own endpoint type: an IPv4-mapped IPv6 address is still 16 bytes of an IPv6 layer.
+var special = map[int][][]byte{
+	16: {
+		make([]byte, 16), // ::
+		{15: 1},          // ::1
+		{10: 0xff, 11: 0xff, 12: 1, 13: 2, 14: 3, 15: 4},              // ::ffff:1.2.3.4 (IPv4-mapped)
+		{10: 0xff, 11: 0xff, 12: 10, 13: 0, 14: 0, 15: 0},             // ::ffff:10.0.0.0
+		{10: 0xff, 11: 0xff, 15: 0},                                   // ::ffff:0.0.0.0
+		{12: 1, 13: 2, 14: 3, 15: 4},                                  // ::1.2.3.4 (IPv4-compatible)
+		{0: 0, 1: 0x64, 2: 0xff, 3: 0x9b, 12: 1, 13: 2, 14: 3, 15: 4}, // 64:ff9b::1.2.3.4
+		{0: 0xff, 1: 0x02, 15: 1},                                     // ff02::1
+		{0: 0xfe, 1: 0x80, 15: 1},                                     // fe80::1
+		{0: 0xfe, 1: 0x80, 8: 2, 11: 0xff, 12: 0xfe, 15: 0},           // fe80::200:ff:fe00:0 (ends in zeros)
+		{0: 0x20, 1: 0x01, 2: 0x0d, 3: 0xb8, 15: 0},                   // 2001:db8::
+		{8: 0x20, 9: 0x01, 15: 9},                                     // starts with zero bytes
+		{0: 0x20, 1: 0x01, 2: 0x0d, 3: 0xb8, 15: 1},                   // 2001:db8::1
+	},
+	4: {{0, 0, 0, 0}, {255, 255, 255, 255}, {127, 0, 0, 1}, {10, 0, 0, 0}, {0, 0, 0, 1}, {1, 2, 3, 4}, {224, 0, 0, 1}},
+	6: {{0, 0, 0, 0, 0, 0}, {255, 255, 255, 255, 255, 255}, {2, 0, 0, 0, 0, 0}, {0, 0, 0, 0, 0, 1}, {0, 0x1b, 0x21, 1, 2, 3}},
+	2: {{0, 0}, {255, 255}, {1, 0}, {0, 1}, {255, 0}, {0, 80}},
+	1: {{0}, {255}, {1}},
+}
+
+// flows kept per layer type for the pairwise comparison of conversations
+var convCap = map[string]int{"link": 25, "network": 36, "transport": 8}
+
+// coreAddr: the addresses whose flows are compared pairwise as conversations (all pairs of all special values
+// would be too many lines): the IPv6 forms that embed an IPv4 address next to those IPv4 addresses themselves.
+func coreAddr(b []byte) bool {
+	var idx []int
+	switch len(b) {
+	case 16:
+		idx = []int{0, 2, 3, 5, 6, 10}
+	case 4:
+		idx = []int{0, 1, 3, 5, 2}
+	default:
+		return true
+	}
+	for _, i := range idx {
+		if bytes.Equal(special[len(b)][i], b) {
+			return true
+		}
+	}
+	return false
+}
+
+// rewritten returns a copy of the packet in which the two address fields of every flow-exposing layer are
+// overwritten with special values of the field's width (nil if nothing could be located).
+func rewritten(r *vh.Rand, orig []byte, first gopacket.LayerType) []byte {
+	data := exact(orig)
+	out := exact(orig)
+	ls, _ := decode(data, first)
+	hit := false
+	for _, l := range ls {
+		lt := l.LayerType().String()
+		for _, ff := range flowFns(l) {
+			src, srcRaw, okS := fieldBytes(l, ff.src, lt == "IPv4")
+			dst, dstRaw, okD := fieldBytes(l, ff.dst, lt == "IPv4")
+			if !okS || !okD || len(src) != len(dst) || len(special[len(src)]) == 0 {
+				continue
+			}
+			so, do, ok := locate(data, l, lt, src, dst, srcRaw, dstRaw)
+			if !ok {
+				continue
+			}
+			sp := special[len(src)]
+			a, b := sp[r.Intn(len(sp))], sp[r.Intn(len(sp))]
+			switch r.Intn(4) {
+			case 0: // source only
+				b = dst
+			case 1: // destination only
+				a = src
+			}
+			copy(out[so:], a)
+			copy(out[do:], b)
+			hit = true
+		}
+	}
+	if !hit {
+		return nil
+	}
+	return out
+}
+
 var decOpts = gopacket.DecodeOptions{NoCopy: true, DecodeStreamsAsDatagrams: true}
 
 func decode(data []byte, first gopacket.LayerType) (ls []gopacket.Layer, failed bool) {
@@ -450,8 +586,16 @@ func decode(data []byte, first gopacket.LayerType) (ls []gopacket.Layer, failed 
 	return
 }
 
+// exact returns a copy with capacity == length (offsets of layer fields are computed from capacities, and
+// NewPacket may clip a NoCopy buffer to its length)
+func exact(b []byte) []byte {
+	c := make([]byte, len(b))
+	copy(c, b)
+	return c
+}
+
 func (d *driver) packet(name string, orig []byte, first gopacket.LayerType) {
-	data := append([]byte(nil), orig...)
+	data := exact(orig)
 	ls, failed := decode(data, first)
 	for i, l := range ls {
 		fns := flowFns(l)
@@ -490,29 +634,26 @@ func (d *driver) packet(name string, orig []byte, first gopacket.LayerType) {
 				d.ltypes[lt]++
 				d.emit(ev)
 			}
+			if !p && d.collect && len(src) <= gopacket.MaxEndpointSize && len(dst) <= gopacket.MaxEndpointSize {
+				ck := fmt.Sprint(ff.kind, ev["f"], src, dst)
+				if !d.seenLy["C"+ck] && d.nconv[lt] < convCap[ff.kind] && coreAddr(src) && coreAddr(dst) {
+					d.seenLy["C"+ck] = true
+					d.nconv[lt]++
+					d.conv[ff.kind] = append(d.conv[ff.kind], conv{f, flv{T: clampT(int64(f.EndpointType())),
+						S: append([]byte(nil), src...), D: append([]byte(nil), dst...)}})
+				}
+			}
 			if p || !okS || !okD || len(src) != len(dst) || len(src) == 0 {
 				continue
 			}
 			// the other direction of the conversation: the same packet with the two address fields swapped
-			so, do := offsetIn(data, srcRaw), offsetIn(data, dstRaw)
-			if srcRaw == nil {
-				at, ok := portAt[lt]
-				base := offsetIn(data, l.LayerContents())
-				if !ok || base < 0 || at[2] != len(src) {
-					d.stats["swap_unlocated"]++
-					continue
-				}
-				so, do = base+at[0], base+at[1]
-			} else if len(srcRaw) != len(src) { // 16-byte form of an IPv4 address: the last four bytes
-				so, do = so+len(srcRaw)-len(src), do+len(dstRaw)-len(dst)
-			}
 			n := len(src)
-			if so < 0 || do < 0 || so+n > len(data) || do+n > len(data) ||
-				!bytes.Equal(data[so:so+n], src) || !bytes.Equal(data[do:do+n], dst) {
+			so, do, okL := locate(data, l, lt, src, dst, srcRaw, dstRaw)
+			if !okL {
 				d.stats["swap_unlocated"]++
 				continue
 			}
-			d2 := append([]byte(nil), data...)
+			d2 := exact(data)
 			copy(d2[so:so+n], dst)
 			copy(d2[do:do+n], src)
 			ls2, _ := decode(d2, first)
@@ -619,6 +760,72 @@ func synth() []corpus.Fixture {
 	return out
 }
 
+// specials builds packets whose address fields run over the special values: every ordered pair of IPv6
+// and of IPv4 addresses, with MACs, ports and the transport protocol rotating.
+func specials() []corpus.Fixture {
+	var out []corpus.Fixture
+	k := 0
+	tr := func(proto int, sp, dp []byte) (byte, []byte) {
+		switch proto % 5 {
+		case 0:
+			b := make([]byte, 20)
+			copy(b, sp)
+			copy(b[2:], dp)
+			b[12] = 0x50
+			return 6, b
+		case 1:
+			b := make([]byte, 8)
+			copy(b, sp)
+			copy(b[2:], dp)
+			b[5] = 8
+			return 17, b
+		case 2:
+			b := make([]byte, 12)
+			copy(b, sp)
+			copy(b[2:], dp)
+			return 132, b
+		case 3:
+			b := make([]byte, 8)
+			copy(b, sp)
+			copy(b[2:], dp)
+			b[5] = 8
+			return 136, b
+		}
+		b := make([]byte, 18)
+		b[0], b[1], b[2], b[3] = 0x40, 9, sp[1], dp[1]
+		return 27, b
+	}
+	frame := func(v6 bool, src, dst []byte) {
+		k++
+		m, pt := special[6], special[2]
+		proto, pl := tr(k, pt[k%len(pt)], pt[(k/len(pt))%len(pt)])
+		var ip []byte
+		et := []byte{0x08, 0x00}
+		if v6 {
+			et = []byte{0x86, 0xdd}
+			ip = append([]byte{0x60, 0, 0, 0, 0, byte(len(pl)), proto, 64}, src...)
+		} else {
+			n := 20 + len(pl)
+			ip = append([]byte{0x45, 0, 0, byte(n), 0, 1, 0, 0, 64, proto, 0, 0}, src...)
+		}
+		ip = append(append(ip, dst...), pl...)
+		fr := append(append([]byte{}, m[(k/3)%len(m)]...), m[k%len(m)]...)
+		fr = append(append(fr, et...), ip...)
+		out = append(out, corpus.Fixture{Name: fmt.Sprintf("special:%d", k), Data: fr, First: layers.LayerTypeEthernet})
+	}
+	for _, a := range special[16] {
+		for _, b := range special[16] {
+			frame(true, a, b)
+		}
+	}
+	for _, a := range special[4] {
+		for _, b := range special[4] {
+			frame(false, a, b)
+		}
+	}
+	return out
+}
+
 func watchdog(tr *vh.Trace) {
 	last, stuck := int64(-1), 0
 	for {
@@ -645,9 +852,10 @@ func main() {
 	seed := flag.Uint64("seed", 1, "seed")
 	useCorpus := flag.Bool("corpus", false, "observe the flows of decoded corpus packets")
 	nmut := flag.Int("mut", 0, "mutations per corpus packet")
+	naddr := flag.Int("addr", 0, "copies per corpus packet with the address fields rewritten to special values")
 	flag.Parse()
 	d := &driver{tr: vh.NewTrace(*out), seenEP: map[string]bool{}, seenFL: map[string]bool{}, seenLy: map[string]bool{},
-		stats: map[string]int{}, ltypes: map[string]int{}}
+		stats: map[string]int{}, ltypes: map[string]int{}, conv: map[string][]conv{}, nconv: map[string]int{}}
 	go watchdog(d.tr)
 	nmodel := 0
 	if *in != "" {
@@ -673,11 +881,29 @@ func main() {
 	d.random(r, *nrand)
 	npk := 0
 	if *useCorpus {
+		d.collect = true
+		for _, fx := range specials() {
+			d.sc++
+			npk++
+			progress.Store(int64(d.sc))
+			d.guard("packet", func() { d.packet(fx.Name, fx.Data, fx.First) })
+		}
+		d.collect = false
 		for _, fx := range append(synth(), corpus.Load()...) {
 			d.sc++
 			npk++
 			progress.Store(int64(d.sc))
 			d.guard("packet", func() { d.packet(fx.Name, fx.Data, fx.First) })
+			for m := 0; m < *naddr; m++ {
+				nd := rewritten(r, fx.Data, fx.First)
+				if nd == nil {
+					break
+				}
+				d.sc++
+				npk++
+				progress.Store(int64(d.sc))
+				d.guard("packet", func() { d.packet(fx.Name+"~addr", nd, fx.First) })
+			}
 			for m := 0; m < *nmut; m++ {
 				var md []byte
 				var how string
@@ -696,6 +922,7 @@ func main() {
 			}
 		}
 	}
+	d.conversations()
 	d.tr.Close()
 	res := vh.M{"scenarios": d.sc, "events": d.tr.N, "model_scenarios": nmodel, "random": *nrand, "packets": npk,
 		"stats": d.stats, "layer_types": d.ltypes}
